@@ -174,6 +174,7 @@ class Sim:
         self.views = []            # (oid, dtype term or None, node)
         self.none_uses = []        # (ctx, node, text)
         self.unbound = []          # (ctx, node, name, function): process global assigned without `global`
+        self.relem_uses = []       # (ctx, node): a value yielded by the result iterator handed to a call
         self.attr_stores = []      # (ctx, node)
         self.depth = 0
         self.cur_node = None
@@ -699,6 +700,10 @@ class Sim:
         return ("call", f, tuple(self.snap(a) for a in args), tuple(("kw", k, self.snap(v)) for k, v in sorted(kws.items())))
 
     def call_value(self, f, args, kws, node):
+        if not (is_tag(f, "ext") and (f[1] in DRAINERS or f[1] in STRUCT_CALLS)):
+            for a in list(args) + list(kws.values()):
+                if isinstance(a, tuple) and any(is_tag(x, "relem", "results") for x in subterms(a)):
+                    self.relem_uses.append((self.ctx, node))
         if is_tag(f, "fn"):
             return self.call_fn(f, args, kws, node)
         if is_tag(f, "ext"):
@@ -712,7 +717,7 @@ class Sim:
 
     def must_inline(self, rel, q, args, kws):
         s = self.world.summary(rel, q)
-        if s & {"global", "mutates", "mp", "calls_param", "trivial"}:
+        if s & {"global", "mutates", "mp", "calls_param", "trivial", "stores"}:
             return True
         if self.frames or self.ctx[0] != "parent":
             return True
@@ -918,6 +923,9 @@ class Sim:
             return self.fresh(self._callterm(("attr", self.snap(recv), name), args, kws))
         if recv == NONE:
             self.none_uses.append((self.ctx, node, f"method {name} of None"))
+        if is_tag(recv, "list", "tuple", "dictc") and name in ("append", "extend", "insert", "pop", "remove", "update", "add", "clear", "sort", "reverse",
+                                                             "setdefault", "appendleft"):
+            raise Unsup(f"container mutated through .{name}()")
         return self.fresh(self._callterm(("attr", self.snap(recv), name), args, kws))
 
     # ------------------------------------------------------------------------------------------------ pool model
